@@ -454,3 +454,14 @@ package dispatch
 //@   ensures [limits-as-given-or-none] limits != nil ==> result.limits == limits
 //@   ensures [two-to-eight-ingestion-workers] 2 <= result.concurrency && result.concurrency <= 8
 //@   ensures [not-yet-loaded] result.loaded != nil
+
+// ---- C06 / C14: stopping. Whatever state the dispatcher is in - not started, waiting for its start time, running -
+// Stop marks it stopped, cancels its context (which ends its workers, timers and groups) and waits for them; a nil
+// dispatcher is a no-op. A dispatcher that was stopped never starts grouping later.
+//@ func (*Dispatcher).Stop
+//@   props C06 C14 C05
+//@   nosafe
+//@   at call dynamic:field:cancel assert [marked-stopped-before-the-context-is-cancelled] count("Int32).Store") + count("]).Store[") + count("Value).Store") >= 1
+//@   ensures [a-live-dispatcher-is-always-cancelled-and-awaited] d != nil ==> count("dynamic:field:cancel") == 1 && count("WaitGroup).Wait") == 1
+//@   ensures [nil-is-a-no-op] d == nil ==> !called("dynamic:field:cancel") && !called("WaitGroup).Wait")
+//@   noeffect dynamic:field:cancel
